@@ -23,7 +23,9 @@ pub struct Case {
     pub nla_seed: u64,
     /// 0: conforming server; 1: the server (or a man in the middle) answers the negotiation with a selection that
     /// leaves the transport in clear (`selected`, no TLS); 2: NLA with an unusual CHALLENGE flag set (`flags`);
-    /// 3: conforming server, reached by the SECOND connect of a Connector whose first connect failed at licensing
+    /// 3: conforming server, reached by the SECOND connect of a Connector whose first connect failed at licensing;
+    /// 4: conforming server, reached by a second connection made on the same thread after a first connection whose
+    ///    transport died exactly when the Client Info PDU was handed to it
     pub server: u8,
     pub flags: u32,
 }
@@ -67,7 +69,7 @@ pub fn make_case(combo: u64, idx: u64, seed: u64) -> Case {
             case.selected = *r.pick(&[0u32, 0, 0, 4, 8, 16, 0x20, 0x80000000]);
         }
         2 => {
-            case.server = 3;
+            case.server = if r.chance(1, 2) { 3 } else { 4 };
         }
         1 => {
             if case.cfg.nla {
@@ -122,8 +124,24 @@ pub fn check_case(c: &Case, rep: &mut Report) {
     let probe = d.clone();
     let cfg = c.cfg.clone();
     let reuse = c.server == 3;
+    let after_dead_write = c.server == 4;
     let sel = c.selected;
     let res = mon::guarded(move || {
+        if after_dead_write {
+            // first connection: everything fine until the write that carries the Client Info PDU
+            let mut p1 = Profile::default();
+            p1.selected_protocol = sel;
+            let d1 = Duplex::new(p1);
+            let mut nr1 = Rng::new(0x1718);
+            let nla1 = gen::nla_cfg(&mut nr1, &cfg);
+            d1.with(|s| {
+                s.tls_identity = 2;
+                s.nla_cfg = nla1;
+                s.fail_write_when_events = Some(6);
+            });
+            let _ = client::connect_real(&cfg, d1.clone()).map(|_| ());
+            return client::connect_real(&cfg, d.clone()).map(|_| ()).map_err(|e| client::err_kind(&e));
+        }
         if !reuse {
             return client::connect_real(&cfg, d.clone()).map(|_| ()).map_err(|e| client::err_kind(&e));
         }
@@ -189,7 +207,7 @@ pub fn check_case(c: &Case, rep: &mut Report) {
                 }
             }
         }
-        if c.server != 0 && c.server != 3 {
+        if c.server != 0 && c.server != 3 && c.server != 4 {
             // a server outside the rules: only the negative part (the secrets appear nowhere else) is judged
             return;
         }
@@ -245,7 +263,7 @@ pub fn check_case(c: &Case, rep: &mut Report) {
         Ok(()) => rep.hist("connected"),
         Err(e) => {
             rep.hist(&format!("connect-error:{}", e));
-            if c.server == 0 || c.server == 3 {
+            if c.server == 0 || c.server == 3 || c.server == 4 {
                 rep.inconclusive(&format!("connect failed ({}) in mode {}", e, mode));
             }
         }
@@ -253,7 +271,7 @@ pub fn check_case(c: &Case, rep: &mut Report) {
     if connect.is_ok() || c.server != 0 {
         rep.nontrivial(fnv(j.to_string().as_bytes()));
     }
-    rep.set("server_behaviours", ["conforming", "selection-leaves-transport-in-clear", "unusual-challenge-flags", "second-connect-of-a-connector-whose-first-failed"][c.server as usize].to_string());
+    rep.set("server_behaviours", ["conforming", "selection-leaves-transport-in-clear", "unusual-challenge-flags", "second-connect-of-a-connector-whose-first-failed", "connection-after-one-whose-transport-died-at-the-client-info"][c.server as usize].to_string());
     rep.set("modes", mode.clone());
     if rep.want_sample() {
         let jj = j.clone();
